@@ -1,2 +1,206 @@
-(* Property C13 - statements only (proofs in Proofs/C13.v). Not built yet. *)
-From SC.Model Require Import Base.
+(* Property C13 - based integer literals (0x / 0o / 0b) and 'N to hex | octal | binary | decimal'.
+   STATEMENTS ONLY (proofs: Proofs/C13.v).  Model functions: Lexer.radix_value / from_radix
+   (i64::from_str_radix as read by number_regex_parser), Format.digit_char / radix_digits /
+   item_print ({:#b} {:#o} {:#X} of `self.0 as i64`), RuleFns.number_type_convert,
+   Items.calculate on two numbers, and the whole pipeline Run64.exec64 for the end-to-end family.
+   Reference notions (Proofs/C13.v, section 0): char_digit, of_digits (positional value),
+   is_digit, base_of / prefix_of / upper_of / based (the three based number types), type_words. *)
+From Coq Require Import Floats QArith Qcanon.
+From SC.Model Require Import Base Num NumF64 NumQ FloatIO Types Config Case Parser Items RuleFns Format
+     Lexer Api Run64 Corr.
+From SC.Gen Require Import ConfigData.
+From SC.Proofs Require Import C13.
+Local Open Scope Z_scope.
+
+(* one digit: the reader undoes the printer, whatever the letter case; the printer's alphabet *)
+Theorem C13_digit_read : forall upper d, 0 <= d < 36 ->
+  char_digit (digit_char upper d) = Some d.
+Proof. exact digit_read. Qed.
+
+Theorem C13_digit_alphabet :
+  map (digit_char true) [0;1;2;3;4;5;6;7;8;9;10;11;12;13;14;15] = s "0123456789ABCDEF" /\
+  map (digit_char false) [0;1;2;3;4;5;6;7;8;9;10;11;12;13;14;15] = s "0123456789abcdef".
+Proof. exact digit_char_table. Qed.
+
+(* the reader is the positional value of the digits, for every base 2..36 *)
+Theorem C13_read_positional : forall b upper ds, 2 <= b <= 36 -> Forall (is_digit b) ds ->
+  forall acc, radix_value b (map (digit_char upper) ds) acc = Some (of_digits b ds acc).
+Proof. exact radix_value_digits. Qed.
+
+(* digits round trip: reading the printed digit string of n gives n, for every base 2..36
+   (so 2, 8, 16), both letter cases and EVERY 64-bit n; with any fuel f it holds up to b^f *)
+Theorem C13_digits_roundtrip : forall b, 2 <= b <= 36 -> forall upper n, 0 <= n < 2 ^ 64 ->
+  radix_value b (radix_digits 70 upper b n []) 0 = Some n.
+Proof. exact digits_roundtrip. Qed.
+
+Theorem C13_digits_roundtrip_fuel : forall b, 2 <= b <= 36 -> forall upper fuel n,
+  0 <= n < b ^ Z.of_nat fuel ->
+  radix_value b (radix_digits fuel upper b n []) 0 = Some n.
+Proof. exact digits_roundtrip_fuel. Qed.
+
+(* the printed string, digit by digit: digits of the base whose positional value is n, "0" for
+   0, otherwise no leading zero and exactly as many digits as n needs *)
+Theorem C13_digits_shape : forall b, 2 <= b <= 36 -> forall upper n, 0 <= n < 2 ^ 64 ->
+  exists ds, radix_digits 70 upper b n [] = map (digit_char upper) ds /\
+    Forall (is_digit b) ds /\ of_digits b ds 0 = n /\
+    (n = 0 -> ds = [0]) /\
+    (0 < n -> (exists d r, ds = d :: r /\ 0 < d) /\
+              b ^ (Z.of_nat (length ds) - 1) <= n < b ^ Z.of_nat (length ds)).
+Proof. exact digits_shape. Qed.
+
+Section WithNum.
+Context {F : Type} {NF : Num F}.
+
+(* the literal reader (i64::from_str_radix(..) as f64) on printed digits: every non-negative
+   i64 is read as itself; what does not fit an i64 is not read at all *)
+Theorem C13_from_radix_printed : forall b upper n, 2 <= b <= 36 -> 0 <= n < 2 ^ 63 ->
+  from_radix b (radix_digits 70 upper b n []) = Some (fofZ n : F).
+Proof. exact from_radix_printed. Qed.
+
+Theorem C13_from_radix_too_big : forall b upper n, 2 <= b <= 36 -> 2 ^ 63 <= n < 2 ^ 64 ->
+  from_radix (F:=F) b (radix_digits 70 upper b n []) = None.
+Proof. exact from_radix_too_big. Qed.
+
+(* printing a based number: prefix 0b / 0o / 0x, then the digits of `x as i64` (negative values:
+   the 64-bit two's complement), upper-case for hex *)
+Theorem C13_print_based : forall cfg lang year (x : F) t, based t ->
+  item_print cfg lang year (INumber x t)
+  = Ok (prefix_of t ++ radix_digits 70 (upper_of t) (base_of t)
+                         (if as_i64 x <? 0 then as_i64 x + 2 ^ 64 else as_i64 x) []).
+Proof. exact print_based. Qed.
+
+(* print then read, every non-negative value (no 2^31 saturation any more): the digits after
+   the prefix read back as the integer that was printed *)
+Theorem C13_print_read : forall cfg lang year (x : F) t, based t -> 0 <= as_i64 x ->
+  exists ds,
+    item_print cfg lang year (INumber x t) = Ok (prefix_of t ++ ds) /\
+    ds = radix_digits 70 (upper_of t) (base_of t) (as_i64 x) [] /\
+    radix_value (base_of t) ds 0 = Some (as_i64 x) /\
+    from_radix (base_of t) ds = Some (fofZ (as_i64 x) : F).
+Proof. exact print_read. Qed.
+
+(* negative values print a text that is not an i64 literal: it is skipped when read, never
+   misread *)
+Theorem C13_print_negative : forall cfg lang year (x : F) t, based t -> as_i64 x < 0 ->
+  exists ds,
+    item_print cfg lang year (INumber x t) = Ok (prefix_of t ++ ds) /\
+    radix_value (base_of t) ds 0 = Some (as_i64 x + 2 ^ 64) /\
+    from_radix (F:=F) (base_of t) ds = None.
+Proof. exact print_negative. Qed.
+
+(* an integer n that the number type holds exactly prints as prefix + digits of n and that text
+   reads back as the very same number *)
+Theorem C13_print_read_int : forall cfg lang year n t, based t -> 0 <= n -> as_i64 (fofZ n : F) = n ->
+  exists ds,
+    item_print cfg lang year (INumber (fofZ n : F) t) = Ok (prefix_of t ++ ds) /\
+    ds = radix_digits 70 (upper_of t) (base_of t) n [] /\
+    radix_value (base_of t) ds 0 = Some n /\
+    from_radix (base_of t) ds = Some (fofZ n : F).
+Proof. exact print_read_int. Qed.
+
+(* 'N to hex | hexadecimal | octal | binary | decimal' (N a number or a variable holding one):
+   N rounded to the nearest integer with the type the word names; other words: no result *)
+Theorem C13_convert : forall (vs : vars F) fs x w,
+  get_number vs (s "number") fs = Some x -> get_text vs (s "type") fs = Some w ->
+  number_type_convert vs fs
+  = Ok (option_map (TNumber (fround x))
+         (assoc w [(s "hex", Hexadecimal); (s "hexadecimal", Hexadecimal); (s "octal", Octal);
+                   (s "binary", Binary); (s "decimal", Decimal)])).
+Proof. exact convert_spec. Qed.
+
+Theorem C13_convert_declines : forall (vs : vars F) fs,
+  get_number vs (s "number") fs = None \/ get_text vs (s "type") fs = None ->
+  number_type_convert vs fs = Ok None.
+Proof. exact convert_declines. Qed.
+
+(* a based number is an ordinary number in + - * /; the result keeps the LEFT operand's type *)
+Theorem C13_arith : forall (bexec : config F -> str -> res (option F)) cfg (x y : F) t t' op,
+  calculate bexec cfg (INumber x t) (INumber y t') op
+  = Ok (Some (INumber (match op with
+                       | OAdd => fadd x y | OSub => fsub x y | OMul => fmul x y
+                       | ODiv => do_division x y end) t)).
+Proof. exact arith_left_type_ops. Qed.
+
+End WithNum.
+
+(* the rule as configured (regenerated from config.json): with and without the conversion
+   word; the word group holds exactly the words the rule function knows *)
+Theorem C13_convert_tables :
+  option_map (assoc (s "number_type_convert")) (assoc (s "en") d_rule_texts)
+  = Some (Some [s "{NUMBER:number} {GROUP:conversion:conversion_group} {GROUP:type:number_type_group}";
+                s "{NUMBER:number} {GROUP:type:number_type_group}"]) /\
+  forall gs ws, assoc (s "en") d_word_group = Some gs -> assoc (s "number_type_group") gs = Some ws ->
+    forallb (fun w => is_some (type_word w)) ws = true /\
+    forallb (fun p => mem_str (fst p) ws) type_words = true.
+Proof. exact convert_tables. Qed.
+
+(* exact rationals: every non-negative i64 prints and reads back as itself *)
+Theorem C13_print_read_Q : forall cfg lang year (n : Z) t, based t -> 0 <= n < 2 ^ 63 ->
+  exists ds,
+    item_print cfg lang year (INumber (fofZ n : Qc) t) = Ok (prefix_of t ++ ds) /\
+    ds = radix_digits 70 (upper_of t) (base_of t) n [] /\
+    radix_value (base_of t) ds 0 = Some n /\
+    from_radix (base_of t) ds = Some (fofZ n : Qc).
+Proof. exact print_read_Q. Qed.
+
+(* binary64: 0 and 2^k - 1, 2^k, 2^k + 1 for k <= 52 are held exactly ... *)
+Theorem C13_binary64_family : forall n, In n (pow2_family 52) -> as_i64 (fofZ n : float) = n.
+Proof. exact as_i64_fofZ_family. Qed.
+
+(* ... so each prints as prefix + its digits and reads back as the same float *)
+Theorem C13_print_read_family64 : forall cfg lang year n t, based t -> In n (pow2_family 52) ->
+  exists ds,
+    item_print cfg lang year (INumber (fofZ n : float) t) = Ok (prefix_of t ++ ds) /\
+    ds = radix_digits 70 (upper_of t) (base_of t) n [] /\
+    radix_value (base_of t) ds 0 = Some n /\
+    from_radix (base_of t) ds = Some (fofZ n : float).
+Proof. exact print_read_family64. Qed.
+
+(* through the whole pipeline (number regexes, rule matching, interpreter, formatter), default
+   configuration: 'n to <base>' prints prefix + digits of n with value n and the type of the
+   base, and that printed text, entered as a line, is again the number n of that type and
+   prints as itself (e2e, Proofs/C13.v section 8) *)
+Theorem C13_end_to_end_family :
+  forallb (e2e Hexadecimal) (pow2_family 52) = true /\
+  forallb (e2e Octal) (pow2_family 52) = true /\
+  forallb (e2e Binary) (pow2_family 20) = true.
+Proof. exact e2e_family. Qed.
+
+(* non-vacuity: concrete lines through the pipeline; 2147483648 is the repaired saturation case *)
+Theorem C13_examples :
+  run (s "255 to hex") = [Some (s "0xFF", Some (TNumber (f64_of_Z 255) Hexadecimal))] /\
+  run (s "0xFF") = [Some (s "0xFF", Some (TNumber (f64_of_Z 255) Hexadecimal))] /\
+  run (s "0xff to decimal") = [Some (s "255", Some (TNumber (f64_of_Z 255) Decimal))] /\
+  run (s "2147483648 to hex") = [Some (s "0x80000000", Some (TNumber (f64_of_Z 2147483648) Hexadecimal))] /\
+  run (s "0x80000000") = [Some (s "0x80000000", Some (TNumber (f64_of_Z 2147483648) Hexadecimal))] /\
+  run (s "10 octal") = [Some (s "0o12", Some (TNumber (f64_of_Z 10) Octal))] /\
+  run (s "2,5 to binary") = [Some (s "0b11", Some (TNumber (f64_of_Z 3) Binary))] /\
+  run (s "0b1111 + 0x10") = [Some (s "0b11111", Some (TNumber (f64_of_Z 31) Binary))] /\
+  run (s "0x10 * 0o10") = [Some (s "0x80", Some (TNumber (f64_of_Z 128) Hexadecimal))] /\
+  radix_value 16 (s "fF") 0 = Some 255 /\
+  radix_digits 70 true 16 (2 ^ 64 - 1) [] = s "FFFFFFFFFFFFFFFF" /\
+  from_radix 16 (s "7FFFFFFFFFFFFFFF") = Some (f64_of_Z (2 ^ 63 - 1)) /\
+  from_radix (F:=float) 16 (s "8000000000000000") = None.
+Proof. exact examples. Qed.
+
+Print Assumptions C13_digit_read.
+Print Assumptions C13_digit_alphabet.
+Print Assumptions C13_read_positional.
+Print Assumptions C13_digits_roundtrip.
+Print Assumptions C13_digits_roundtrip_fuel.
+Print Assumptions C13_digits_shape.
+Print Assumptions C13_from_radix_printed.
+Print Assumptions C13_from_radix_too_big.
+Print Assumptions C13_print_based.
+Print Assumptions C13_print_read.
+Print Assumptions C13_print_negative.
+Print Assumptions C13_print_read_int.
+Print Assumptions C13_convert.
+Print Assumptions C13_convert_declines.
+Print Assumptions C13_arith.
+Print Assumptions C13_convert_tables.
+Print Assumptions C13_print_read_Q.
+Print Assumptions C13_binary64_family.
+Print Assumptions C13_print_read_family64.
+Print Assumptions C13_end_to_end_family.
+Print Assumptions C13_examples.
